@@ -119,6 +119,12 @@ func (v *Verifier) pkgByName(from *types.Package, name string) *types.Package {
 			}
 		}
 	}
+	// prefer packages of the repository over standard-library packages with the same short name
+	for _, p := range v.allPkgs {
+		if p.Name() == name && strings.HasPrefix(p.Path(), "github.com/dlclark/regexp2") {
+			return p
+		}
+	}
 	for _, p := range v.allPkgs {
 		if p.Name() == name {
 			return p
